@@ -496,6 +496,15 @@ def emit (s : IState) : Except Err IState :=
 
 def isKnownTagtype (t : Nat) : Bool := Gen.KNOWN_TAGTYPES.contains t
 
+/-- the pending data belongs to an ignored tag (prepare / activate): it has no continuation pages -/
+def afterIgnored (s : IState) : Bool :=
+  match s.fwdata with
+  | [] => false
+  | f0 :: _ =>
+    match Gen.BF2_TAGTYPE_MAP.lookup f0.typ with
+    | some (none, _, _, _) => true
+    | _ => false
+
 def importStep (s : IState) (o : Obj) : Except Err IState :=
   match o with
   | .load lines =>
@@ -503,7 +512,7 @@ def importStep (s : IState) (o : Obj) : Except Err IState :=
     | [] => .error .indexError
     | l0 :: _ =>
       if !isKnownTagtype l0.typ then .error .formatBf3 else
-      if (Gen.BF2_TAGTYPE_MAP.lookup l0.typ).isSome && !s.fwdata.isEmpty then do
+      if ((Gen.BF2_TAGTYPE_MAP.lookup l0.typ).isSome || afterIgnored s) && !s.fwdata.isEmpty then do
         let s' ← emit s
         pure { s' with fwdata := lines }
       else pure { s with fwdata := s.fwdata ++ lines }
